@@ -983,40 +983,57 @@ func icTimeDate(fr *frame, args []value) value {
 		}
 		return timeVal{st.Sub(y.of, st.bin(OpURem, y.of, BV(nsPerDay, 64)))}
 	}
-	// General case inside a declared time window: every symbolic component
-	// comes from an instant of the window; fix the UTC day of each such
-	// instant on this path (a fork per feasible day) and compute with the
-	// concrete calendar values.
+	// General case inside a declared time window: the symbolic arguments are
+	// expressions over calendar components of instants of the window (and
+	// possibly other values such as a weekday).  Fix the UTC day of each such
+	// instant on this path (a fork per feasible day), replace the component
+	// variables by the concrete calendar values and let the solver enumerate
+	// what is left (with the days fixed there is normally one value).
 	if m.timeWinHi != 0 {
-		conc := make([]int, 7)
+		first := m.timeWinLo - m.timeWinLo%nsPerDay
+		repl := map[*Term]*Term{}
 		ok := true
 		for i := 0; i < 7 && ok; i++ {
 			t := args[i].(*Term)
 			if t.IsConst() {
-				conc[i] = int(sext64(t.c, 64))
 				continue
 			}
-			tc, isComp := m.timeComps[t]
-			if !isComp || !m.inTimeWindow(tc.of) {
-				ok = false
-				break
-			}
-			first := m.timeWinLo - m.timeWinLo%nsPerDay
-			idx := m.dayChain(tc.of, func(d uint64) *Term { return BV((d-first)/nsPerDay, 64) })
-			k := m.concretize(idx, "day of an instant")
-			day := nsToTime(first + k*nsPerDay)
-			switch tc.what {
-			case "year":
-				conc[i] = day.Year()
-			case "month":
-				conc[i] = int(day.Month())
-			case "day":
-				conc[i] = day.Day()
-			default:
-				ok = false
+			for _, v := range collectVars([]*Term{t}) {
+				tc, isComp := m.timeComps[v]
+				if !isComp {
+					continue
+				}
+				if _, done := repl[v]; done {
+					continue
+				}
+				if !m.inTimeWindow(tc.of) {
+					ok = false
+					break
+				}
+				idx := m.dayChain(tc.of, func(d uint64) *Term { return BV((d-first)/nsPerDay, 64) })
+				k := m.concretize(idx, "day of an instant")
+				day := nsToTime(first + k*nsPerDay)
+				switch tc.what {
+				case "year":
+					repl[v] = BV(uint64(day.Year()), 64)
+				case "month":
+					repl[v] = BV(uint64(day.Month()), 64)
+				case "day":
+					repl[v] = BV(uint64(day.Day()), 64)
+				default:
+					ok = false
+				}
 			}
 		}
 		if ok {
+			conc := make([]int, 7)
+			for i := 0; i < 7; i++ {
+				t := st.subst(args[i].(*Term), repl)
+				if !t.IsConst() {
+					t = BV(m.concretize(t, "argument of time.Date"), 64)
+				}
+				conc[i] = int(sext64(t.c, 64))
+			}
 			r := time.Date(conc[0], time.Month(conc[1]), conc[2], conc[3], conc[4], conc[5], conc[6], time.UTC)
 			return timeVal{BV(uint64(r.UnixNano()), 64)}
 		}
